@@ -2,16 +2,23 @@
 EXTENDS Flight
 Pr(op, a, b, c, v, w) == [op |-> op, a |-> a, b |-> b, c |-> c, v |-> v, w |-> w]
 \* MotionCommander: forward 0.2 (default velocity), right 0.1 at 0.5, down 0.3 (to the ground from the
-\* default height), up 0.1 at 0.2, turn_left 36 deg, start_down, stop, a zero-length move (raises), raise
+\* default height), up 0.1 at 0.2, turn_left 36 deg, start_down, stop, a zero-length move (raises), raise,
+\* the body waits 0.15 s (less than the update period), a full turn (360 deg)
 McQuick == {Pr("move", 200, 0, 0, 0, 0), Pr("move", 0, -100, 0, 500, 0), Pr("move", 0, 0, -300, 0, 0),
             Pr("turn", 1, 36, 0, 72, 0), Pr("start", 0, 0, -200, 0, 0), Pr("stop", 0, 0, 0, 0, 0),
-            Pr("raise", 0, 0, 0, 0, 0)}
+            Pr("raise", 0, 0, 0, 0, 0), Pr("wait", 150, 0, 0, 0, 0), Pr("turn", 1, 360, 0, 72, 0)}
+\* programs about time: the same command again some time after the last setpoint (stop while hovering, a
+\* velocity commanded again unchanged), pauses shorter and longer than the update period
+McTimed == {Pr("wait", 150, 0, 0, 0, 0), Pr("wait", 500, 0, 0, 0, 0), Pr("stop", 0, 0, 0, 0, 0),
+            Pr("start", 100, 0, 0, 0, 0), Pr("start", 0, 0, -200, 0, 0)}
 \* + up 0.1, quarter circle left r=0.1, diagonal 0.3/0.4 at 0.5, start_circle_right, start_linear_motion
-\*   with yaw, turn_right 90 at 90, back 0.1 at 0.1, zero-length move
+\*   with yaw, turn_right 90 at 90, back 0.1 at 0.1, zero-length move, turn_right 450 at 90 (more than a
+\*   full turn), a wait longer than the update period
 McThorough == McQuick \cup
            {Pr("move", 0, 0, 100, 200, 0), Pr("circle", 1, 90, 100, 200, 0), Pr("move", 300, 400, 0, 500, 0),
             Pr("startcircle", -1, 0, 200, 500, 0), Pr("start", 100, -100, 100, 0, 45),
-            Pr("turn", -1, 90, 0, 90, 0), Pr("move", -100, 0, 0, 100, 0), Pr("move", 0, 0, 0, 0, 0)}
+            Pr("turn", -1, 90, 0, 90, 0), Pr("move", -100, 0, 0, 100, 0), Pr("move", 0, 0, 0, 0, 0),
+            Pr("turn", -1, 450, 0, 90, 0), Pr("wait", 500, 0, 0, 0, 0)}
 \* PositionHlCommander: forward 0.5, down 0.6 (below the landing height), 0/-0.3/0.4 diagonal at 0.25,
 \* go_to(1, 0) at default height, set_default_velocity, set_default_height, set_landing_height, raise
 HlQuick == {Pr("move", 500, 0, 0, 0, 0), Pr("move", 0, 0, -600, 0, 0), Pr("goto", 1000, 0, 0, 0, 1),
